@@ -280,24 +280,41 @@ func runAsm(m *model.Model, s *ob.Set) {
 		s.Check(len(bad) == 0 && n >= 4, R, "immediate/mP", "dec_arith_amd64.s", fmt.Sprintf("%d occurrences equal mP of div10W_g", n), "reciprocal immediate differs from the Go constant mP (or fewer than 4 occurrences): "+strings.Join(bad, ", "))
 	}
 
-	// ---- A4: store-target discipline
+	// ---- A4: store-target discipline. The destination pointer is whichever register the routine
+	// loads from z+0(FP) (the copy helpers, entered by JMP, inherit R10 from their callers): every
+	// memory store goes through it, and it is written by nothing but that one load.
 	noWrite := map[string]bool{"CMPQ": true, "TESTQ": true, "JMP": true, "CALL": true, "BTQ": true, "MULQ": true, "DIVQ": true, "CMPW": true, "CMPL": true}
-	helpers := map[string]string{"decCpy": "entered by JMP with R8=src, R10=dst, SI=index, DI=count (register contract)", "decCpyInv": "entered by JMP with R8=src, R10=dst, SI=count (register contract)"}
+	helpers := map[string]string{}
+	for _, t := range f.texts {
+		if !strings.Contains(t.name, "·") {
+			helpers[t.name] = "entered by JMP: stores through the register its callers load from z+0(FP)"
+		}
+	}
 	for _, t := range f.texts {
 		var bad []string
+		dstReg := ""
+		if _, isHelper := helpers[t.name]; isHelper {
+			dstReg = helperDst(t)
+		}
 		loads := 0
+		for _, in := range t.instrs {
+			if in.label == "" && in.op == "MOVQ" && len(in.args) == 2 && in.args[0] == "z+0(FP)" && asmRegs[in.args[1]] {
+				loads++
+				if dstReg != "" && dstReg != in.args[1] {
+					bad = append(bad, fmt.Sprintf("%s: the destination pointer is loaded into %s and into %s", ipos(in), dstReg, in.args[1]))
+				}
+				dstReg = in.args[1]
+			}
+		}
 		stores := 0
 		for _, in := range t.instrs {
 			if in.label != "" || len(in.args) == 0 || noWrite[in.op] {
 				continue
 			}
 			dst := in.args[len(in.args)-1]
-			// register destinations: R10 may only be loaded from z+0(FP)
-			if dst == "R10" {
-				if in.op == "MOVQ" && len(in.args) == 2 && in.args[0] == "z+0(FP)" {
-					loads++
-				} else {
-					bad = append(bad, fmt.Sprintf("%s: destination pointer R10 is modified by %s %s", ipos(in), in.op, strings.Join(in.args, ", ")))
+			if dstReg != "" && dst == dstReg {
+				if !(in.op == "MOVQ" && len(in.args) == 2 && in.args[0] == "z+0(FP)") {
+					bad = append(bad, fmt.Sprintf("%s: destination pointer %s is modified by %s %s", ipos(in), dstReg, in.op, strings.Join(in.args, ", ")))
 				}
 				continue
 			}
@@ -310,14 +327,14 @@ func runAsm(m *model.Model, s *ob.Set) {
 			}
 			if mm := reMem.FindStringSubmatch(dst); mm != nil {
 				stores++
-				if mm[2] != "R10" {
-					bad = append(bad, fmt.Sprintf("%s: %s stores through %s, not through the destination pointer R10", ipos(in), in.op, mm[2]))
+				if mm[2] != dstReg {
+					bad = append(bad, fmt.Sprintf("%s: %s stores through %s, not through the destination pointer (%s, loaded from z+0(FP))", ipos(in), in.op, mm[2], dstReg))
 				}
 			}
 		}
 		c := "stores/" + t.name
 		if why, isHelper := helpers[t.name]; isHelper {
-			s.Check(len(bad) == 0 && loads == 0, R, c, rel(t), why, strings.Join(bad, "; ")+" (helper must not reload R10)")
+			s.Check(len(bad) == 0 && loads == 0, R, c, rel(t), why, strings.Join(bad, "; ")+" (helper must not reload the destination pointer)")
 			continue
 		}
 		if stores == 0 && len(bad) == 0 {
@@ -325,10 +342,18 @@ func runAsm(m *model.Model, s *ob.Set) {
 			continue
 		}
 		if loads != 1 {
-			bad = append(bad, fmt.Sprintf("R10 is loaded from z+0(FP) %d times (want exactly once)", loads))
+			bad = append(bad, fmt.Sprintf("the destination pointer is loaded from z+0(FP) %d times (want exactly once)", loads))
+		}
+		// a vector kernel that tail-calls a copy helper must hand it the destination in R10
+		for _, in := range t.instrs {
+			if in.label == "" && in.op == "JMP" && len(in.args) == 1 && strings.HasSuffix(in.args[0], "(SB)") {
+				if h := f.text(strings.TrimSuffix(in.args[0], "(SB)")); h != nil && helperDst(h) != dstReg {
+					bad = append(bad, fmt.Sprintf("%s: tail call to %s, which stores through %s, but this routine keeps the destination in %s", ipos(in), in.args[0], helperDst(h), dstReg))
+				}
+			}
 		}
 		if len(bad) == 0 {
-			s.Ok(R, c, rel(t), fmt.Sprintf("%d memory stores, all through R10 = z", stores))
+			s.Ok(R, c, rel(t), fmt.Sprintf("%d memory stores, all through %s = z", stores, dstReg))
 		} else {
 			s.Bad(R, c, rel(t), bad[0], bad[1:]...)
 		}
@@ -377,6 +402,7 @@ func runAsm(m *model.Model, s *ob.Set) {
 		s.Check(why == "", R, "copy-order/"+hn, rel(t), "loads precede stores in every copy block", why)
 	}
 	// ---- A5c: def-before-use of registers and flags, per TEXT
+	asmContracts(f)
 	for _, t := range f.texts {
 		bad, checked, unknown := asmDefUse(t)
 		if len(unknown) > 0 {
@@ -403,13 +429,16 @@ func runAsm(m *model.Model, s *ob.Set) {
 		}
 	}
 
-	// ---- A6: inlined copies of div10W
+	// ---- A6: inlined copies of div10W. The sequence is located by its reciprocal immediate and
+	// compared modulo a consistent renaming of registers (AX and DX, the implicit operands of MULQ,
+	// map to themselves); a register copy made just before the inlined sequence (MOVQ DX, R13)
+	// makes the two registers interchangeable until one of them is written.
 	{
 		ref := f.text("·div10W")
 		if ref == nil {
 			s.Bad(R, "inline/div10W", "dec_arith_amd64.s", "TEXT ·div10W not found")
 		} else {
-			rseq := divSeq(ref, map[string]string{"R8": "N1", "R9": "N0"})
+			rseq, _ := divRegion(ref, 0)
 			for _, n := range []string{"·mul10WW", "·mulAdd10VWW", "·addMul10VVW"} {
 				t := f.text(n)
 				c := "inline/" + n
@@ -417,23 +446,16 @@ func runAsm(m *model.Model, s *ob.Set) {
 					s.Bad(R, c, "dec_arith_amd64.s", "TEXT "+n+" not found")
 					continue
 				}
-				seq := divSeq(t, map[string]string{"R13": "N1", "R14": "N0"})
+				seq, alias := divRegion(t, len(rseq))
 				why := ""
 				if len(rseq) < 15 {
-					why = "reference sequence in ·div10W not found (SARQ $63, BX … SUBQ BX, DX)"
+					why = "reference sequence in ·div10W not found (SARQ $63 … up to the first store of a result)"
 				} else if len(seq) != len(rseq) {
 					why = fmt.Sprintf("inlined div10W sequence has %d instructions, ·div10W has %d", len(seq), len(rseq))
 				} else {
-					for i := range seq {
-						a, b := seq[i], rseq[i]
-						// one copy reads DX where the original reads n1 (MOVQ DX, R13 precedes): propagate the register copy
-						if a != b && strings.Replace(a, "DX, AX", "N1, AX", 1) != b {
-							why = fmt.Sprintf("instruction %d differs: %q vs %q in ·div10W", i+1, a, b)
-							break
-						}
-					}
+					why = alphaEqual(rseq, seq, alias)
 				}
-				s.Check(why == "", R, c, rel(t), fmt.Sprintf("%d instructions equal ·div10W's after renaming (n1,n0)", len(seq)), why)
+				s.Check(why == "", R, c, rel(t), fmt.Sprintf("%d instructions equal ·div10W's up to register renaming", len(seq)), why)
 			}
 		}
 	}
@@ -677,34 +699,124 @@ func laneCongruent(t *asmText) (int, string) {
 	return K, cmp("store", actSt, expSt)
 }
 
-// divSeq extracts the instruction sequence from "SARQ $63, BX" to the final "SUBQ BX, DX".
-func divSeq(t *asmText, rename map[string]string) []string {
-	var out []string
-	on := false
+// divRegion returns the straight-line instruction sequence of the division by the word base:
+// from the SARQ $63 that precedes the load of the reciprocal immediate up to (not including) the
+// first instruction that stores to memory or a result slot, a label, a jump or RET — or exactly n
+// instructions when n > 0. It also returns the register copies (MOVQ Ra, Rb) made in the four
+// instructions before the sequence.
+func divRegion(t *asmText, n int) ([]asmInstr, map[string]string) {
+	var ins []asmInstr
 	for _, in := range t.instrs {
-		if in.label != "" {
-			continue
-		}
-		if !on && in.op == "SARQ" && len(in.args) == 2 && in.args[0] == "$63" && in.args[1] == "BX" {
-			on = true
-		}
-		if !on {
-			continue
-		}
-		args := make([]string, len(in.args))
-		for i, a := range in.args {
-			if r, ok := rename[a]; ok {
-				args[i] = r
-			} else {
-				args[i] = a
-			}
-		}
-		out = append(out, instrStr(in.op, args))
-		if in.op == "SUBQ" && len(in.args) == 2 && in.args[0] == "BX" && in.args[1] == "DX" {
+		ins = append(ins, in)
+	}
+	imm := -1
+	for i, in := range ins {
+		if in.label == "" && in.op == "MOVQ" && len(in.args) == 2 && strings.HasPrefix(in.args[0], "$0x") && len(in.args[0]) > 12 {
+			imm = i
 			break
 		}
 	}
-	return out
+	if imm < 0 {
+		return nil, nil
+	}
+	start := -1
+	for i := imm; i >= 0 && i >= imm-6; i-- {
+		if ins[i].label == "" && ins[i].op == "SARQ" && len(ins[i].args) == 2 && ins[i].args[0] == "$63" {
+			start = i
+			break
+		}
+	}
+	if start < 0 {
+		return nil, nil
+	}
+	alias := map[string]string{}
+	for i := start - 1; i >= 0 && i >= start-4; i-- {
+		in := ins[i]
+		if in.label != "" {
+			break
+		}
+		if in.op == "MOVQ" && len(in.args) == 2 && asmRegs[in.args[0]] && asmRegs[in.args[1]] {
+			alias[in.args[1]] = in.args[0]
+		}
+	}
+	var out []asmInstr
+	for i := start; i < len(ins); i++ {
+		in := ins[i]
+		if n > 0 && len(out) == n {
+			break
+		}
+		if in.label != "" || in.op == "RET" || strings.HasPrefix(in.op, "J") {
+			break
+		}
+		if n == 0 && in.op == "MOVQ" && len(in.args) == 2 && !asmRegs[in.args[1]] {
+			break
+		}
+		out = append(out, in)
+	}
+	return out, alias
+}
+
+// alphaEqual compares two instruction sequences modulo a bijective renaming of registers.
+// alias: registers of b that hold the same value as another register of b on entry.
+func alphaEqual(a, b []asmInstr, alias map[string]string) string {
+	fwd := map[string]string{"AX": "AX", "DX": "DX"}
+	rev := map[string]string{"AX": "AX", "DX": "DX"}
+	al := map[string]string{}
+	for k, v := range alias {
+		al[k] = v
+	}
+	same := func(x, y string) bool { // y (in b) may stand for x's image
+		if x == y {
+			return true
+		}
+		return al[x] == y || al[y] == x
+	}
+	for i := range a {
+		ia, ib := a[i], b[i]
+		if ia.op != ib.op || len(ia.args) != len(ib.args) {
+			return fmt.Sprintf("instruction %d differs: %q in ·div10W vs %q", i+1, instrStr(ia.op, ia.args), instrStr(ib.op, ib.args))
+		}
+		for k := range ia.args {
+			x, y := ia.args[k], ib.args[k]
+			if !asmRegs[x] || !asmRegs[y] {
+				if x != y {
+					return fmt.Sprintf("instruction %d differs: %q in ·div10W vs %q", i+1, instrStr(ia.op, ia.args), instrStr(ib.op, ib.args))
+				}
+				continue
+			}
+			if m, ok := fwd[x]; ok {
+				if !same(m, y) {
+					return fmt.Sprintf("instruction %d: register %s of ·div10W corresponds to %s, but %q uses %s", i+1, x, m, instrStr(ib.op, ib.args), y)
+				}
+				continue
+			}
+			if r, ok := rev[y]; ok && r != x {
+				// y already stands for another register: acceptable only through an alias
+				okAlias := false
+				for k2, v2 := range al {
+					if (k2 == y || v2 == y) && rev[k2] == "" {
+						fwd[x], rev[k2] = k2, x
+						okAlias = true
+						break
+					}
+				}
+				if !okAlias {
+					return fmt.Sprintf("instruction %d: %s stands for both %s and %s of ·div10W", i+1, y, r, x)
+				}
+				continue
+			}
+			fwd[x], rev[y] = y, x
+		}
+		// writes end aliases
+		for _, w := range asmEffect(ib).writes {
+			for k2, v2 := range al {
+				if k2 == w || v2 == w {
+					delete(al, k2)
+				}
+			}
+		}
+	}
+	return ""
 }
 
 func runAsmPure(m *model.Model, s *ob.Set) {
@@ -905,4 +1017,21 @@ func runBuildTags(m *model.Model, s *ob.Set) {
 	}
 	s.Check(len(imp) == 0, R, "no-runtime-dispatch", "-", "package decimal imports neither runtime nor a cpu-feature package", strings.Join(imp, "; "))
 	_ = ast.NewIdent
+}
+
+// helperDst: the base register of the memory stores of a JMP-entered helper ("" if none or not unique).
+func helperDst(t *asmText) string {
+	dst := ""
+	for _, in := range t.instrs {
+		if in.label != "" || len(in.args) != 2 || in.op != "MOVQ" {
+			continue
+		}
+		if mm := reMem.FindStringSubmatch(in.args[1]); mm != nil {
+			if dst != "" && dst != mm[2] {
+				return ""
+			}
+			dst = mm[2]
+		}
+	}
+	return dst
 }
